@@ -49,7 +49,62 @@ class C18(Prop):
     thorough_cases = 300000
     shrink_data = False
 
+    def gen_dense(self, rng):
+        from rtverif.props.c04 import sig_text
+        law = rng.choice(DENSE_LAWS)
+        c = lang.dense_cfg(rng)
+        c.max_depth = min(c.max_depth, 3)
+        p = lang.gen_phi(rng, c, rng.randint(0, c.max_depth))
+        q = lang.gen_phi(rng, c, rng.randint(0, c.max_depth))
+        i1, i2 = lang.gen_interval(rng, c), lang.gen_interval(rng, c)
+        names = sorted(set(lang.variables(p) + lang.variables(q))) or ['x']
+        return {'law': law, 'kind': 'ct_offline', 'p': lang.to_jsonable(p), 'q': lang.to_jsonable(q),
+                'i1': [float(x) for x in i1], 'i2': [float(x) for x in i2],
+                'signals': sig_text(lang.gen_signals(rng, names))}
+
+    def judge_dense(self, case):
+        from fractions import Fraction as Fr
+        from rtverif import ref_dense
+        from rtverif.props.c04 import sig_from_json
+        v = Verdict()
+        case = dict(case)
+        case['i1'] = [Fr(x).limit_denominator(64) for x in case['i1']]
+        case['i2'] = [Fr(x).limit_denominator(64) for x in case['i2']]
+        lhs, rhs = self._sides(case)
+        sig = sig_from_json(case['signals'])
+        names = sorted(sig)
+        try:
+            el, er = ref_dense.evaluate(lhs, sig), ref_dense.evaluate(rhs, sig)
+        except ref.Undefined:
+            v.skip = 'reference undefined (domain error)'
+            return v
+        rel = max(rel_for(lhs), rel_for(rhs))
+        v.info['law:%s/ct_offline' % case['law']] = 1
+        try:
+            a = drive.ct_offline(lang.to_text(lhs), names, sig)
+            b = drive.ct_offline(lang.to_text(rhs), names, sig)
+        except Exception as e:
+            v.bad('raises:' + type(e).__name__, '%s | %s (dense offline): raised %s: %s' % (
+                lang.to_text(lhs), lang.to_text(rhs), type(e).__name__, e))
+            return v
+        start = max(s[0][0] for s in sig.values())
+        end = min(s[-1][0] for s in sig.values())
+        v.nontrivial = len(el.compact().ts) >= 2
+        if end < start:
+            return v
+        for t in ref_dense.probe_times(el, list(a) + list(b), start, end):
+            if el.at(t) != el.at(t) or er.at(t) != er.at(t):
+                continue
+            x, y = ref_dense.out_value(a, t), ref_dense.out_value(b, t)
+            if x is None or y is None or not ref.same(x, y, rel):
+                v.bad('law:' + case['law'], 'dense offline monitor, law %s: %s gives %r but %s gives %r at t=%s; '
+                      'signals=%s' % (case['law'], lang.to_text(lhs), x, lang.to_text(rhs), y, float(t), case['signals']))
+                break
+        return v
+
     def gen(self, rng, ctx):
+        if rng.random() < 0.25:
+            return self.gen_dense(rng)
         kind = rng.choice(['dt_offline', 'dt_offline', 'dt_online'])
         law = rng.choice(PAST_LAWS if kind == 'dt_online' else LAWS)
         nv = rng.choice([1, 2, 2, 3])
@@ -69,6 +124,8 @@ class C18(Prop):
 
     def brief(self, case):
         c = dict(case)
+        if case['kind'] == 'ct_offline':
+            return c
         l, r = self._sides(case)
         c['lhs'], c['rhs'] = lang.to_text(l), lang.to_text(r)
         return c
@@ -89,6 +146,8 @@ class C18(Prop):
         raise ValueError(kind)
 
     def judge(self, case):
+        if case['kind'] == 'ct_offline':
+            return self.judge_dense(case)
         v = Verdict()
         lhs, rhs = self._sides(case)
         data = case['data']
